@@ -15,6 +15,8 @@
 //!                          streams, direct / indirect-direct / indirect-compressed /Length) × prefixes:
 //!                          the model's `openFile` + `resolveRef` with table-instantiated token parsers
 //!                          against Storage::load_storage_and_trailer + resolve (+ file_range, raw length)
+//!   c17.scanlist(.outside) the same documents × prefixes (and with a startxref beyond the file): the model's `scan`
+//!                          with a word scanner as item parser against the items and stream ranges of Storage::scan
 //!   c17.load.outside       the same documents with damaged offsets (beyond the file, near 2^64, /Prev loops,
 //!                          bad /Size, index out of range, /Length pointing at the wrong kind)
 //! Oracles (the implementation against the property itself):
@@ -755,6 +757,55 @@ pub fn load_streams(driver: &Driver, seed: u64, thorough: bool, rep: &mut Report
     }
 }
 
+fn real_scanlist(buf: &Vec<u8>) -> String {
+    let r = catch_unwind(AssertUnwindSafe(|| {
+        let mut storage = match Storage::with_cache(buf.clone(), ParseOptions::strict(), NoCache, NoCache, NoLog) { Ok(s) => s, Err(_) => return "err".to_string() };
+        let _ = storage.load_storage_and_trailer();
+        let mut out = vec![];
+        for item in storage.scan().take(100_000) {
+            match item {
+                Ok(ScanItem::Object(r, p)) => match file_range_of(&p) {
+                    Some((a, b)) => out.push(format!("{}@{}-{}", r.id, a, b)),
+                    None => out.push(format!("{}", r.id)),
+                },
+                Ok(ScanItem::Trailer(_)) => {}
+                Err(_) => out.push("E".to_string()),
+            }
+        }
+        if out.len() == 1 && out[0] == "E" { "err".to_string() } else { format!("ok {}", out.join(" ")) }
+    }));
+    r.unwrap_or_else(|_| "panic".into())
+}
+
+/// c17.scanlist: `Offsets.scan` (slice from the header to the newest section, ranges counted from the
+/// header position) with a word scanner as `scanItems`, against the items of `Storage::scan`
+pub fn scan_streams(driver: &Driver, seed: u64, thorough: bool, rep: &mut Report) {
+    for (name, outside) in [("c17.scanlist", false), ("c17.scanlist.outside", true)] {
+        let mut st = Stream::new(name, !outside);
+        let n = if thorough { 20_000 } else { 1200 };
+        let mut cases = vec![];
+        for case in 0..n {
+            let mut rng = Rng::derive(seed, name, case);
+            let damage = if outside { *rng.pick(&[Damage::StartxrefBeyond, Damage::StartxrefHuge]) } else { Damage::None };
+            let doc = gen_doc(&mut rng, false, damage);
+            // with a damaged startxref nothing is loaded, so an indirect /Length cannot be resolved by the
+            // real scan; the word scanner of the model instance knows nothing about that: direct lengths only
+            if outside && doc.written.iter().any(|x| matches!(x, Written::Stream { how: LenHow::IndirectDirect, .. } | Written::Stream { how: LenHow::IndirectCompressed, .. })) { continue; }
+            let l = if rng.chance(1, 4) { 0 } else { pick_prefix_len(&mut rng) };
+            let (p, _) = gen_prefix(&mut rng, l);
+            let mut buf = p.clone();
+            buf.extend_from_slice(&doc.bytes);
+            let stt: Vec<String> = doc.written.iter().filter_map(|x| match x { Written::Stream { id, rel, len, .. } => Some(format!("{}={}.{}", id, rel, len)), _ => None }).collect();
+            st.count(&format!("revisions={}", doc.sections.len()));
+            st.count(&format!("prefix={}", if l == 0 { "0" } else { ">0" }));
+            st.count(&format!("streams={}", stt.len().min(6)));
+            cases.push((format!("c17.scan {} {}", hex(&buf), if stt.is_empty() { "-".to_string() } else { stt.join("+") }), real_scanlist(&buf), true));
+        }
+        run_stream(driver, &mut st, cases);
+        rep.streams.push(st);
+    }
+}
+
 // ---------------------------------------------------------------------------------------------------
 // oracle: f against p ++ f on the real library
 
@@ -1010,6 +1061,19 @@ fn prefix_oracles(seed: u64, thorough: bool, rep: &mut Report, only: Option<&Val
         } else {
             or.fail("witness-unloadable", "the offset-overflow witness file does not load", json!({"stream": "c17.witness", "file_hex": hex(&f)}));
         }
+        // the same with a wrapping sum: the prefix holds the text of an object, the entry offset is
+        // 2^64 - |p|, so a wrapped `start_offset + pos` lands on the prefix and reads the ghost
+        let ghost = b"9 0 obj\n(ghost)\nendobj\n".to_vec();
+        let mut w = PdfWriter::new(b"", "1.4");
+        w.free(0, 0, 65535);
+        w.object(1, 0, b"<< /A 1 >>");
+        w.record(2, Entry::InUse { off: u64::MAX - ghost.len() as u64 + 1, gen: 0 });
+        w.finish(XrefFormat::Stream, 4, "", &[], 3);
+        let f = w.out.clone();
+        let base = Base { name: "witness-offset-wrap".into(), bytes: f.clone(), own_start: 0, scan_ids: None };
+        if let Ok(s0) = snapshot(&f, false) {
+            check_pair(&mut or, &mut os, &base, &s0, &ghost, "witness", json!({"stream": "c17.witness", "which": "offset-wrap", "prefix_hex": hex(&ghost), "file_hex": hex(&f)}));
+        }
     }
     if only.map(|r| r["stream"] == "c17.witness").unwrap_or(false) {
         rep.oracles.push(or);
@@ -1106,6 +1170,7 @@ pub fn run(driver: &Driver, seed: u64, thorough: bool, replay: Option<&Value>) -
             xref_streams(driver, seed, thorough, &mut rep);
             word_streams(driver, seed, thorough, &mut rep);
             load_streams(driver, seed, thorough, &mut rep);
+            scan_streams(driver, seed, thorough, &mut rep);
         }
         return rep;
     }
@@ -1113,6 +1178,7 @@ pub fn run(driver: &Driver, seed: u64, thorough: bool, replay: Option<&Value>) -
     xref_streams(driver, seed, thorough, &mut rep);
     word_streams(driver, seed, thorough, &mut rep);
     load_streams(driver, seed, thorough, &mut rep);
+    scan_streams(driver, seed, thorough, &mut rep);
     prefix_oracles(seed, thorough, &mut rep, None);
     rep
 }
